@@ -6,7 +6,7 @@ import numpy as np
 from .. import refmodel as R
 from .. import gen as G
 from ..exact import Unsupported, exact_values
-from ..storejudge import decode_store, expected_post_codes, in_core_domain, STORE_OPS
+from ..storejudge import decode_store, expected_post_codes, in_core_domain, STORE_OPS, as_library_sees, UNDERFLOW_KEY
 
 ID = 'C01'
 TITLE = 'store = OVERFLOW(ROUND(v*2^n_frac))'
@@ -118,7 +118,18 @@ def make_judges(ctx):
         elif imag is None and post.imag is not None and any(post.imag):
             bad = 'imaginary codes %r for a real input' % (post.imag[:6],)
         if bad:
-            ctx.violation('wrong_code', '%s %s/%s via %s (%s): %s' % (R.dtype_fxp(*post.fmt()), post.rounding, post.overflow, si.route, fam, bad), ev)
+            key = None
+            alt = as_library_sees(si, post.n_frac)
+            if alt is not None and tuple(post.shape) == tuple(shape):
+                keep = si.values
+                si.values = alt
+                try:
+                    c2, i2 = expected_post_codes(si)[:2]
+                    if post.codes == c2 and (i2 is None or (post.imag or [0] * len(c2)) == i2):
+                        key = UNDERFLOW_KEY     # exactly the known mechanism: the scaled double product underflowed to zero
+                finally:
+                    si.values = keep
+            ctx.violation('wrong_code', '%s %s/%s via %s (%s): %s' % (R.dtype_fxp(*post.fmt()), post.rounding, post.overflow, si.route, fam, bad), ev, key=key)
         # coverage keys
         lo, hi = R.code_range(post.signed, post.n_word)
         sc = F(2) ** post.n_frac
@@ -254,6 +265,11 @@ def run_case(case, ctx):
         x.get_val()
         y = _mk(Fxp, s, w, nf, r, o)
         y.set_val(arr.reshape(2, -1) if arr.size % 2 == 0 else arr)
+        # the doubles next to every code and every tie (1 and 3 ulps away on both sides)
+        pts = np.arange(a, b + 1, 2, dtype=np.float64) / 4.0 / (2.0 ** nf)
+        up = np.nextafter(pts, np.inf)
+        dn = np.nextafter(pts, -np.inf)
+        Fxp(np.concatenate([up, dn, np.nextafter(np.nextafter(up, np.inf), np.inf), np.nextafter(np.nextafter(dn, -np.inf), -np.inf)]), s, w, nf, rounding=r, overflow=o)
         if case['single']:
             for v in arr.tolist():
                 _store_all_routes(Fxp, v, (), s, w, nf, r, o)
@@ -297,6 +313,10 @@ def run_case(case, ctx):
         for cont in ('scalar', '1d'):
             car = mags[0] if cont == 'scalar' else np.array(mags[:4])
             _store_all_routes(Fxp, car, () if cont == 'scalar' else (4,), s, w, nf, r, 'saturate', routes=('constructor', 'call', 'setitem'))
+        small = [float(v) for v in G.hostile_scaled_values(rng, s, w, nf, n=6) if G.can_carry(v, 'pyfloat')][:3] or [0.0]
+        mixed = np.array([mags[0]] + small + [mags[1]])
+        _store_all_routes(Fxp, mixed, (len(mixed),), s, w, nf, r, 'saturate', routes=('constructor', 'set_val'))
+        _store_all_routes(Fxp, list(mixed), (len(mixed),), s, w, nf, r, 'saturate', routes=('constructor', 'call'))
     elif k == 'complex':
         s, w, nf = G.core_format(rng, max_word=40)
         r, o = G.MODES[i % 10]
